@@ -135,3 +135,59 @@ def run(ck, prog):
     _run_pre_progress(ck, prog)
     from sa import progress
     progress.run_rule(ck, prog, set(DIMENSION_FILES))
+
+
+# ------------------------------------------------------------------ labels reach class indices only through the class table
+_run_pre_taint = run
+
+
+def label_taint(ck, prog):
+    """'Labels need not be 0..k-1 / integers': the class index of a sample is the position of its label in `classes`
+    (a look-up by comparison), never a numeric conversion of the label itself. No value derived from y - other than through
+    unique() / its length - reaches a float->int conversion or an index position in LogisticRegression::fit and its closures."""
+    from props.C11 import y_raw, CONV
+    rule, inst = "E2b-label-taint", "LogisticRegression::fit: labels are mapped to class indices by look-up, not by conversion"
+    bs = prog.find(r"^linear::logistic_regression::LogisticRegression::<T, M>::fit$")
+    if len(bs) != 1:
+        ck.violation(rule, inst, "LogisticRegression::fit", "", expected="anchor exists", found=f"{len(bs)} bodies")
+        return
+    b = bs[0]
+    yarg = 2
+    problems = []
+    n = 0
+    stop = ("::unique", "::unique_with_indices", "::len", "::shape")
+    for bd in [b] + prog.closures_of.get(b.path, []):
+        rs = Resolver(bd)
+        for bb, t in bd.calls():
+            f = t.get("f")
+            if not f:
+                continue
+            if f["path"].endswith(CONV) and t["args"]:
+                n += 1
+                a = rs.operand(t["args"][0])
+                if bd is b and y_raw(a, yarg, stop):
+                    problems.append(f"label value converted to an integer by {f['path'].split('::')[-1]} at {bd.where(bb)}: `{render(a)[:70]}`")
+            if f["path"] in ("std::ops::Index::index", "std::ops::IndexMut::index_mut") and len(t["args"]) == 2:
+                n += 1
+                a = rs.operand(t["args"][1])
+                if bd is b and y_raw(a, yarg, stop):
+                    problems.append(f"label value used as an index at {bd.where(bb)}: `{render(a)[:70]}`")
+        for i, j, s in bd.stmts():
+            if s["k"] == "assign" and s["r"]["k"] == "cast" and s["r"]["ck"] == "FloatToInt":
+                n += 1
+                a = rs.operand(s["r"]["o"])
+                if bd is b and y_raw(a, yarg, stop):
+                    problems.append(f"label value cast to an integer at {bd.where(i, j)}")
+    site = f"{b.loc[0]}:{b.loc[1]}"
+    if problems:
+        ck.violation(rule, inst, b.path, site, expected="class index = position of the label in classes", found="; ".join(problems[:3]))
+    else:
+        ck.ok(rule, inst, b.path, site, f"{n} conversion / index sites, none fed by a raw label")
+
+
+def run(ck, prog):
+    _run_pre_taint(ck, prog)
+    label_taint(ck, prog)
+
+
+EXPLANATION += (' Labels reach class indices only through the class table: no label-derived value is converted to an integer or used as an index in fit (E2b-label-taint).')
